@@ -231,14 +231,14 @@ pub fn div_3x2_ref(n21: u128, n0: u64, d: u128) -> u64 {
         let (mut q, mut r) = div_2x1_ref(n21, d1);
 
         let t1 = u128::from(q) * u128::from(d0);
-        let t2 = (u128::from(n0) << 64) | u128::from(r);
+        let t2 = (u128::from(r) << 64) | u128::from(n0);
         if t1 > t2 {
             q -= 1;
             r = r.wrapping_add(d1);
             let overflow = r < d1;
             if !overflow {
                 let t1 = u128::from(q) * u128::from(d0);
-                let t2 = (u128::from(n0) << 64) | u128::from(r);
+                let t2 = (u128::from(r) << 64) | u128::from(n0);
                 if t1 > t2 {
                     q -= 1;
                     // UNUSED: r += d[1];
